@@ -56,3 +56,94 @@ pub fn cmd_probe(args: &HashMap<String, String>) -> i32 {
     println!("missing keys: {missing}");
     0
 }
+
+/// F9: value table file that exists but is empty (crash between creating the file and writing to it)
+pub fn cmd_probe_f9(args: &HashMap<String, String>) -> i32 {
+    let btree = args.get("btree").is_some();
+    let dir = std::path::PathBuf::from("/dev/shm/probe_f9");
+    let _ = std::fs::remove_dir_all(&dir);
+    let mut o = Options::with_columns(&dir, 1);
+    o.columns[0] = ColumnOptions { btree_index: btree, ..Default::default() };
+    o.with_background_thread = false;
+    o.always_flush = true;
+    let db = Db::open_or_create(&o).unwrap();
+    drop(db);
+    for t in 0..16 {
+        std::fs::File::create(dir.join(format!("table_00_{:02}", t))).unwrap();
+    }
+    let db = match Db::open(&o) {
+        Ok(d) => d,
+        Err(e) => {
+            println!("open: {e}");
+            return 0
+        },
+    };
+    println!("open ok");
+    println!("get: {:?}", db.get(0, b"k1").map(|v| v.map(|x| x.len())));
+    println!("commit: {:?}", db.commit(vec![(0u8, b"k1".to_vec(), Some(vec![1u8; 10]))]));
+    println!("process: {:?}", db.process_commits());
+    println!("flush: {:?}", db.flush_logs());
+    println!("enact: {:?}", db.enact_logs());
+    println!("get: {:?}", db.get(0, b"k1").map(|v| v.map(|x| x.len())));
+    drop(db);
+    let db = Db::open(&o);
+    println!("reopen: {:?}", db.as_ref().map(|_| ()).map_err(|e| e.to_string()));
+    if let Ok(db) = db {
+        println!("get after reopen: {:?}", db.get(0, b"k1").map(|v| v.map(|x| x.len())));
+    }
+    0
+}
+
+/// F4: crash right after the old index file was unlinked during an enact, with an earlier, already
+/// enacted record in the same log that names the old index
+pub fn cmd_probe_f4(args: &HashMap<String, String>) -> i32 {
+    use crate::common::copy_dir;
+    let with_r1 = args.get("control").is_none();
+    let dir = std::path::PathBuf::from("/dev/shm/probe_f4");
+    let img = std::path::PathBuf::from("/dev/shm/probe_f4_img");
+    let _ = std::fs::remove_dir_all(&dir);
+    let _ = std::fs::remove_dir_all(&img);
+    let mut o = Options::with_columns(&dir, 1);
+    o.columns[0] = ColumnOptions { uniform: true, ..Default::default() };
+    o.salt = Some([0u8; 32]);
+    o.with_background_thread = false;
+    o.always_flush = true;
+    let db = Db::open_or_create(&o).unwrap();
+    let k = |i: u32| { let mut k = vec![0u8; 32]; k[0] = 0xfe; k[1] = 0xdc; k[2] = (i as u8) << 1; k[20] = 0x77; k[21] = i as u8; k };
+    db.commit((0..65u32).map(|i| (0u8, k(i), Some(vec![7u8; 11]))).collect::<Vec<_>>()).unwrap();
+    db.process_commits().unwrap(); db.flush_logs().unwrap(); db.enact_logs().unwrap(); db.clean_logs().unwrap();
+    let files = |d: &std::path::Path| { let mut v: Vec<String> = std::fs::read_dir(d).unwrap().map(|e| e.unwrap().file_name().to_string_lossy().to_string()).filter(|n| n.starts_with("index") || n.starts_with("log")).collect(); v.sort(); v };
+    println!("after growth: {:?}", files(&dir));
+    if with_r1 {
+        db.commit(vec![(0u8, k(3), None)]).unwrap();
+        db.process_commits().unwrap();
+    }
+    for _ in 0..12 { db.process_reindex().unwrap(); }
+    db.commit(vec![(0u8, k(70), Some(vec![9u8; 11]))]).unwrap();
+    db.process_commits().unwrap();
+    db.flush_logs().unwrap();
+    let (d2, i2) = (dir.clone(), img.clone());
+    let taken = std::sync::Arc::new(std::sync::atomic::AtomicBool::new(false));
+    let t2 = taken.clone();
+    crate::sys::set_observer(Some(std::sync::Arc::new(move |call: &str, name: &str, _ret: i64| {
+        if call == "unlink" && name.starts_with("index_00_16") && !t2.swap(true, std::sync::atomic::Ordering::SeqCst) {
+            crate::sys::quiet(|| { let _ = copy_dir(&d2, &i2); });
+        }
+    })));
+    db.enact_logs().unwrap();
+    db.enact_logs().unwrap();
+    crate::sys::set_observer(None);
+    println!("image taken: {} files in image: {:?}", taken.load(std::sync::atomic::Ordering::SeqCst), if img.exists() { files(&img) } else { vec![] });
+    println!("live db: k70 = {:?}", db.get(0, &k(70)).unwrap().map(|v| v.len()));
+    std::mem::forget(db);
+    if img.exists() {
+        let _ = std::fs::remove_file(img.join("lock"));
+        let mut o2 = o.clone();
+        o2.path = img.clone();
+        match Db::open(&o2) {
+            Ok(d) => println!("image: k70 = {:?} k3 = {:?} k5 = {:?}", d.get(0, &k(70)).unwrap().map(|v| v.len()), d.get(0, &k(3)).unwrap().map(|v| v.len()), d.get(0, &k(5)).unwrap().map(|v| v.len())),
+            Err(e) => println!("image open: {e}"),
+        }
+    }
+    0
+}
